@@ -290,6 +290,8 @@ class Resolver:
                 break
         self.local_types = {}
         for k, v in TYPE_FLOOR.items():
+            if k[0] not in self.prog.classes:
+                continue        # fixture programs; vanished anchors fail closed in the rules
             got = self.attr_types.get(k, set())
             if not v <= got:
                 # the floor is what the rest of the analysis relies on; add it and
